@@ -21,6 +21,15 @@ TABLE = {
                         "a hand-written native SQL join over the enumerated scope (incl. the full-join emulation, pandas merge, polars join, which are not under contract)"),
         "assumptions": ["copy.copy is a shallow copy; DBModel.natural_join_to_near_sql is a function of the node it receives"],
     },
+    "C25": {
+        "mods": ["contracts.c25_cache"], "keys": ["ResultCache.get", "ResultCache.store"],
+        "explanation": ("hybrid: PROVED (pyvc) -- ResultCache.get hits only for a stored key, returns a NEW object whose content equals the stored result and leaves the cache and "
+                        "every existing frame unchanged; ResultCache.store leaves an equal stored result alone, otherwise stores a PRIVATE copy under exactly that key, never "
+                        "aliasing the caller's frame (frames are heap objects, so aliasing is visible); BOUNDED -- make_cache_key / hash_data_frame (keys differ whenever any "
+                        "value, column name, shape or row order differs) and store/get histories on the real code"),
+        "assumptions": ["make_cache_key is a function of (model name, sql, table names and CONTENTS) -- its body is only in the bounded run",
+                        "pandas: df.copy() is a new object with equal content; a.equals(b) <=> same content", "data_cache is never None (the debug store is enabled, as constructed)"],
+    },
     "C19": {
         "mods": ["contracts.glue"], "keys": ["PandasModel.clean_copy", "PandasModel._table_step"],
         "explanation": ("hybrid: PROVED (pyvc) -- every returning path of PandasModelBase._table_step (the only place a caller's frame enters the Pandas executor) returns "
